@@ -306,6 +306,8 @@ Breaks(ps) ==
   \cup {BR("definitions-unique", "directive", Append(ps, [Piece(FALSE, "DIRECTIVE", "tag") EXCEPT !.locs = <<"FIELD">>]))}
   \cup {BR("scalar-implemented", "scalar", Append(ps, [Piece(FALSE, "SCALAR", "Orphan") EXCEPT !.impl = "missing"]))}
   \cup {BR("hooks-awaitable", "directive", Append(ps, [Piece(FALSE, "DIRECTIVE", "sync") EXCEPT !.locs = <<"FIELD_DEFINITION">>, !.impl = "sync-hook"]))}
+  \* an `async def` hook behind a functools.wraps decorator whose wrapper is an ordinary function (what is called is not awaitable)
+  \cup {BR("hooks-awaitable", "decorated-directive-hook", Append(ps, [Piece(FALSE, "DIRECTIVE", "sync") EXCEPT !.locs = <<"FIELD_DEFINITION">>, !.impl = "wrapped-sync-hook"]))}
   \* extensions
   \cup {BR("extensions", "unknown-target", Append(ps, [ExtPiece(k, "Ghost") EXCEPT !.fields = IF k \in {"OBJECT", "INTERFACE"} THEN <<Fd("x", Nm("Int"), <<>>)>> ELSE <<>>,
                                                                                !.values = IF k = "ENUM" THEN <<EV("A")>> ELSE <<>>,
